@@ -111,11 +111,15 @@ func main() {
 	wg.Wait()
 	var env *jobs.VerifC11Env
 	for i := range cases {
-		if cases[i].Kind == "raffle" {
+		if cases[i].Kind == "raffle" || cases[i].Kind == "barrier" {
 			if env == nil {
 				env = jobs.VerifC11Setup(dir + "/c11store")
 			}
-			obs[i] = env.RunRaffle(cases[i])
+			if cases[i].Kind == "raffle" {
+				obs[i] = env.RunRaffle(cases[i])
+			} else {
+				obs[i] = env.RunBarrier(cases[i])
+			}
 		}
 	}
 	if env != nil {
